@@ -248,6 +248,8 @@ def render_model(model, explicit_app_label=None):
         mlines.append('app_label = %s' % pyval(explicit_app_label))
     if meta.get('db_table'):
         mlines.append('db_table = %s' % pyval(meta['db_table']))
+    if meta.get('managed') is False:
+        mlines.append('managed = False')
     for key in ('unique_together', 'index_together'):
         if meta.get(key):
             mlines.append('%s = [%s]' % (key, ', '.join(
